@@ -3,6 +3,7 @@
 Utilities to validate Python values against a schema / types.
 """
 
+import copy
 import json
 from typing import Any, Dict, List, Mapping, Optional, Union
 
@@ -165,7 +166,9 @@ def _coerce_input_object(
 
         if field_name not in value:
             if field.has_default_value:
-                coerced[field.python_name] = field.default_value
+                # A copy: the default object lives on the schema and resolvers
+                # are free to edit what they receive.
+                coerced[field.python_name] = copy.deepcopy(field.default_value)
             elif isinstance(field.type, NonNullType):
                 errors.append(
                     CoercionError(
@@ -240,7 +243,9 @@ def coerce_argument_values(
             arg = values[arg_name]
         except KeyError:
             if arg_def.has_default_value:
-                coerced_values[target_name] = arg_def.default_value
+                coerced_values[target_name] = copy.deepcopy(
+                    arg_def.default_value
+                )
             elif isinstance(arg_type, NonNullType):
                 raise CoercionError(
                     'Argument "%s" of required type "%s" was not provided'
@@ -261,7 +266,9 @@ def coerce_argument_values(
                         )
                     coerced_values[target_name] = variables[varname]
                 elif arg_def.has_default_value:
-                    coerced_values[target_name] = arg_def.default_value
+                    coerced_values[target_name] = copy.deepcopy(
+                        arg_def.default_value
+                    )
                 elif isinstance(arg_type, NonNullType):
                     raise CoercionError(
                         'Argument "%s" of required type "%s" was provided the '
